@@ -280,13 +280,19 @@ def scene_inertia(scene, transform: Optional[ArrayLike] = None) -> NDArray[float
     # get the matrix ang geometry name for
     nodes = [graph[n] for n in graph.nodes_geometry]
     # get the moment of inertia with the mesh moved to a location
-    moments = np.array(
-        [
-            geoms[g].moment_inertia_frame(np.dot(np.linalg.inv(mat), transform))
-            for mat, g in nodes
-            if hasattr(geoms[g], "moment_inertia_frame")
-        ],
-        dtype=np.float64,
-    )
+    moments = []
+    for mat, g in nodes:
+        if not hasattr(geoms[g], "moment_inertia_frame"):
+            continue
+        # an instance placed with a uniformly scaled matrix is the
+        # geometry scaled about its own origin and then moved rigidly
+        scale = np.abs(np.linalg.det(mat[:3, :3])) ** (1.0 / 3.0)
+        rigid = np.array(mat, dtype=np.float64)
+        rigid[:3, :3] /= scale
+        # the requested frame in the units of the unscaled geometry
+        frame = np.dot(np.linalg.inv(rigid), transform)
+        frame[:3, 3] /= scale
+        # inertia of a body scaled by `s` goes with `s ** 5`
+        moments.append(geoms[g].moment_inertia_frame(frame) * scale**5)
 
-    return moments.sum(axis=0)
+    return np.array(moments, dtype=np.float64).sum(axis=0)
